@@ -197,6 +197,7 @@ def run_tlc(workdir, module, cfg, workers=1, timeout=600, env=None, **kw):
     cmd = tlc_cmd(module, cfg, workers=workers, metadir=md, **kw)
     e = dict(os.environ)
     e.pop('JAVA_TOOL_OPTIONS', None)
+    e.setdefault('VERIF_DIFF', '0')
     if env:
         e.update(env)
     t0 = time.time()
